@@ -11,4 +11,4 @@ def run(ctx):
     from .kernels import normalisation_clause, graph_dod_clause, restated_clause as guarded_clause
     ctx.rule("C11-e", "normalisation = I_tr·Γ(dod)/Π_e Γ(w_e)·π^(D·L/2) with I_tr = J(full graph), dod = Σ w − L·D/2")
     guarded_clause(ctx, "C11-e", "preprocessing::TropicalSubgraphTable::generate_from_tropical", "normalisation", lambda: normalisation_clause(ctx, "C11-e"))
-    guarded_clause(ctx, "C11-e", "preprocessing::TropicalGraph::from_graph", "graph-dod", lambda: graph_dod_clause(ctx, "C11-e"))
+    guarded_clause(ctx, "C11-e", "preprocessing::TropicalGraph::from_graph", "graph-dod", lambda: graph_dod_clause(ctx, "C11-e", topology=True))
